@@ -505,10 +505,11 @@ def decide(prop, tier, seed):
                 continue
             found_input = bool(pb and pb.get("tests"))
             pair = f["group"].get("pair")
-            if not found_input and pair and pair.get("kind") == "search":
+            if pair and pair.get("kind") == "search" and (not found_input or not replayable):
                 # the harness stubs part of the environment, so Kani's values cannot be executed natively:
                 # obtain an executable failing input for the same clause from the paired native stand-in
-                found_input = paired_native_search(prop, f, pair, seed, checker_cmds, ev_extra)
+                # (Kani's concrete values, if any, stay in the replay file)
+                found_input = paired_native_search(prop, f, pair, seed, checker_cmds, ev_extra) or found_input
         else:
             # Verus gives no model: obtain a failing input from the paired search on the real code
             found_input = False
